@@ -174,7 +174,7 @@ DATA_KINDS = {
     'g': [('DEFB {n}', 1, 0), ('DEFW {t}', 2, 1), ('DEFW {n}', 2, 0)],
     'i': [('DEFB 0', 1, 0), ('DEFW {t}', 2, 1), ('', 1, 0)],
 }
-OTHER_IDS = ['load', 'Start', 'x2', 'sec$1', 'rom']
+OTHER_IDS = ['load', 'Start', 'x2', 'sec$1', 'rom', 'loader', 'x']      # incl. ids (= default directories) that are prefixes of one another
 BASES = [24576, 32768, 40000, 49152, 60000, 65400, 16384]
 WORDS = ['the', 'routine', 'data', 'used', 'by', 'value', 'table', 'of', 'sprites', 'A', 'HL', 'counter', 'see', 'also',
          'loop', 'entry', '(unused)', 'flag', 'copy', 'screen']
@@ -303,7 +303,7 @@ def gen_world(d):
     for c in codes[1:]:
         cid = c['id']
         if d.chance(25):
-            p[cid + '-CodePath'] = d.choice([cid + 'code', 'other/' + cid, 'asm/' + cid])
+            p[cid + '-CodePath'] = d.choice([cid + 'code', 'other/' + cid, 'asm/' + cid, 'asm' + cid, 'a'])
         if d.chance(20):
             p[cid + '-Index'] = d.choice([cid + '.html', 'other/' + cid + '/index.html'])
         if d.chance(20):
